@@ -191,6 +191,166 @@ def verify_loop_method(run, cls):
     run.add(static(f"{fq}/modifies", ex.writes <= {"Rule.activation_degree", "Rule.triggered", "Aggregated.terms"}, f"heap fields written: {sorted(ex.writes)}", fn=fq))
 
 
+# ------------------------------------------------------------------------------------------------ Proportional (two loops)
+def verify_proportional(run):
+    """loop 1 computes every loaded rule's degree on the outputs AT BLOCK ENTRY (nothing is triggered yet), collects the rules with a positive
+    degree in order and sums their degrees; loop 2 divides each collected rule's degree by that sum and triggers it.  Ghosts: FLT(k) = the rules
+    selected among the first k, SUM(k) their degree sum, idx(m) = the rule index of the m-th selected rule, Tg2(m) = the outputs before step m."""
+    cls = "Proportional"
+    src = run.src
+    fq = f"activation.{cls}.activate"
+    fn = src.func("activation", f"{cls}.activate")
+    run.under_contract("activation", f"{cls}.activate", fn)
+    sc = W.schema(src)
+    H0 = init_heap(sc)
+    self_ = z3.Const("self", Ref); block = z3.Const("rule_block", Ref)
+    vstar, ostar = z3.Const("v*", Ref), z3.Const("o*", Ref)
+    kstar, mstar = z3.Int("k*"), z3.Int("m*")
+    OUT = sc.ids["OutputVariable"]
+    rules = H0["RuleBlock.rules"][block]
+    L = z3.Length(rules)
+    conj, disj, impl = H0["RuleBlock.conjunction"][block], H0["RuleBlock.disjunction"][block], H0["RuleBlock.implication"][block]
+    T0 = H0["Aggregated.terms"]
+    fz = H0["OutputVariable.fuzzy"][vstar]
+    deg = z3.Function("deg", z3.IntSort(), XR)
+    FLT = z3.Function("selected_rules", z3.IntSort(), SeqRef)
+    SUM = z3.Function("sum_of_selected_degrees", z3.IntSort(), XR)
+    idx = z3.Function("rule_index_of_selected", z3.IntSort(), z3.IntSort())
+    Tg2 = z3.Function("Tg2", z3.IntSort(), W.TArr)
+    D1 = z3.Function("degree_after_loop1", Ref, XR)          # ghost names for the heap fields at the end of loop 1
+    rule = lambda j: rules[j]
+    ld = lambda j: W.loaded(H0, rule(j))
+    pos_deg = lambda j: xr.gt(xr2x(deg(j)), xr.const(0.0))
+    selP = lambda j: z3.And(ld(j), pos_deg(j))
+    ZERO = x2xr(xr.const(0.0))
+    nsel = lambda k: z3.Length(FLT(k))
+    quot = lambda j: x2xr(xr.div(xr2x(deg(j)), xr2x(SUM(L))))
+
+    def distinct(a, b):
+        return z3.Implies(z3.And(0 <= a, a < L, 0 <= b, b < L, a != b), rule(a) != rule(b))       # wf: a rule occurs once in its block
+
+    def hist1(H, j):
+        r = rule(j)
+        return z3.And(z3.Not(H["Rule.triggered"][r]),
+                      z3.If(ld(j), z3.And(H["Rule.activation_degree"][r] == deg(j), deg(j) == W.fire(H0, r, conj, disj, T0)), H["Rule.activation_degree"][r] == ZERO))
+
+    def memb(k, j):        # a selected rule is in the list, at the position the list had when it was appended
+        return z3.Implies(z3.And(0 <= j, j < k, selP(j)), z3.And(nsel(j) < nsel(k), FLT(k)[nsel(j)] == rule(j), idx(nsel(j)) == j))
+
+    def elem(k, m):        # every element of the list is a selected rule, in increasing rule order
+        return z3.Implies(z3.And(0 <= m, m < nsel(k)), z3.And(0 <= idx(m), idx(m) < k, FLT(k)[m] == rule(idx(m)), selP(idx(m)), nsel(idx(m)) == m))
+
+    def inv1(ex, p, k, seq):
+        act = ex.local(p, "activate")
+        if not isinstance(act, SeqV):
+            return z3.BoolVal(False)
+        return z3.And(act.q == FLT(k), x2xr(ex.num(p.env["sum_degrees"]).x) == SUM(k), nsel(k) <= k, p.heap["Aggregated.terms"] == T0,
+                      z3.Implies(z3.And(0 <= kstar, kstar < k), hist1(p.heap, kstar)), memb(k, kstar), elem(k, mstar),
+                      z3.Implies(z3.And(BATCH > 1, kstar >= 0, kstar < k), z3.Not(ld(kstar))))
+
+    def facts1(ex, p, k, seq):
+        r = rule(k)
+        return [r != NONE, H0["Rule.antecedent"][r] != NONE, H0["Rule.consequent"][r] != NONE, distinct(k, kstar), distinct(k, idx(mstar)), distinct(kstar, idx(mstar)),
+                canon(deg(k)), canon(deg(kstar)), canon(SUM(k)), canon(SUM(0)), SUM(0) == ZERO, FLT(0) == z3.Empty(SeqRef),
+                FLT(k + 1) == z3.If(selP(k), z3.Concat(FLT(k), z3.Unit(r)), FLT(k)),
+                SUM(k + 1) == z3.If(selP(k), x2xr(xr.add(xr2x(SUM(k)), xr2x(deg(k)))), SUM(k)),
+                z3.Implies(selP(k), idx(nsel(k)) == k),
+                nsel(kstar) <= nsel(k) if False else z3.BoolVal(True)]
+
+    def mono(k):
+        """the list only grows (used where positions of earlier iterations are compared with the current length)"""
+        return z3.Implies(z3.And(0 <= kstar, kstar <= k), nsel(kstar) <= nsel(k))
+
+    def ghost1(ex, q, k, seq):
+        return [z3.Implies(ld(k), deg(k) == q.heap["Rule.activation_degree"][rule(k)])]
+
+    def step2(H, m):
+        """what step m of the second loop does to the m-th selected rule"""
+        j = idx(m)
+        r = rule(j)
+        en = H0["Rule.enabled"][r]
+        cons = H0["Rule.consequent"][r]
+        n = z3.Length(H0["Consequent.conclusions"][cons])
+        return z3.And(H["Rule.activation_degree"][r] == quot(j),
+                      H["Rule.triggered"][r] == z3.And(en, xr.gt(xr2x(quot(j)), xr.const(0.0))),
+                      Tg2(m + 1)[fz] == z3.If(en, z3.Concat(Tg2(m)[fz], W.contrib(cons, quot(j), impl, vstar, n)), Tg2(m)[fz]),
+                      Tg2(m + 1)[ostar] == Tg2(m)[ostar])
+
+    def untouched(H, j, m):
+        """a rule that the second loop has not (yet) processed keeps what the first loop left"""
+        r = rule(j)
+        return z3.Implies(z3.And(0 <= j, j < L, z3.Or(z3.Not(selP(j)), nsel(j) >= m)), z3.And(H["Rule.activation_degree"][r] == D1(r), z3.Not(H["Rule.triggered"][r])))
+
+    def inv2(ex, p, m, seq):
+        return z3.And(p.heap["Aggregated.terms"] == Tg2(m), z3.Implies(z3.And(0 <= mstar, mstar < m), step2(p.heap, mstar)), untouched(p.heap, kstar, m))
+
+    def facts2(ex, p, m, seq):
+        e1 = ex.entry[1]          # the state at the end of loop 1
+        j = idx(m)
+        return [elem(L, m), elem(L, mstar), memb(L, kstar), distinct(kstar, idx(m)), distinct(idx(mstar), idx(m)), distinct(kstar, idx(mstar)),
+                canon(SUM(L)), canon(deg(idx(m))), canon(deg(kstar)), canon(deg(idx(mstar))),
+                D1(rule(j)) == deg(j), rule(j) != NONE, H0["Rule.consequent"][rule(j)] != NONE, H0["Rule.antecedent"][rule(j)] != NONE,
+                z3.Implies(z3.And(0 <= mstar, mstar < nsel(L), mstar != m), idx(mstar) != idx(m))]
+
+    def ghost2(ex, q, m, seq):
+        return [Tg2(m + 1) == q.heap["Aggregated.terms"]]
+
+    from pyvc.parsers import ParserExec
+
+    class PropExec(ParserExec):
+        def for_loop(s, p, n):
+            lo = s.loop_index.get((n.lineno, n.col_offset))
+            if lo == 1:
+                # between the loops: name the first loop's result (ghost D1) and start the output history of the second loop
+                i = z3.Int("i")
+                p.pc += [Tg2(0) == p.heap["Aggregated.terms"], z3.Implies(z3.And(0 <= kstar, kstar < L), D1(rule(kstar)) == p.heap["Rule.activation_degree"][rule(kstar)]),
+                         z3.Implies(z3.And(0 <= mstar, mstar < nsel(L)), D1(rule(idx(mstar))) == p.heap["Rule.activation_degree"][rule(idx(mstar))]),
+                         elem(L, mstar), memb(L, kstar)]
+                # what loop 1 left in the observed rule (proved here, used by the second loop's instances)
+                left = z3.Implies(z3.And(0 <= kstar, kstar < L), D1(rule(kstar)) == z3.If(ld(kstar), deg(kstar), ZERO))
+                s.oblige("between_loops/degree_left_by_the_first_loop", p, left)
+                p.pc.append(left)
+            return super().for_loop(p, n)
+
+    contracts = {"Rule.activate_with": W.ActivateWithContract(), "Rule.trigger": W.TriggerContract()}
+    ex = PropExec(src, "activation", sc, contracts=contracts, interfaces=W.INTERFACES,
+                  inline={"Rule.deactivate", "Rule.is_loaded", "Antecedent.is_loaded", "Consequent.is_loaded", "Activation.assert_is_not_vector"},
+                  loops={0: LoopSpec(inv1, facts=facts1, ghost=ghost1, name="loop0.degrees", modifies={"Rule.activation_degree", "Rule.triggered"},
+                                     inst=lambda ex_, p, k, seq: [mono(k), z3.Implies(z3.And(0 <= kstar, kstar < L), z3.And(canon(deg(kstar))))]),
+                         1: LoopSpec(inv2, facts=facts2, ghost=ghost2, name="loop1.normalise_and_trigger", modifies={"Rule.activation_degree", "Rule.triggered", "Aggregated.terms"},
+                                     # the invariant holds for every rule index and every step (it is proved for arbitrary ones): its instances at the rule of the
+                                     # current step and at the step of the observed rule
+                                     inst=lambda ex_, p, m, seq: [z3.substitute(inv2(ex_, p, m, seq), (kstar, idx(m))), z3.substitute(inv2(ex_, p, m, seq), (mstar, nsel(kstar)))])}, fnname=fq)
+    ex.witness = {"vars": [vstar], "objs": [ostar]}
+    ex.skolems = [kstar, mstar]
+    pre = [self_ != NONE, block != NONE, cls_of(vstar) == OUT, BATCH >= 1, kstar >= 0, kstar < L] + W.wf_output_variable(sc, H0, vstar) + [W.not_a_fuzzy_output(H0, ostar)]
+    outs = ex.run_fn(fn, HPath({"self": RefV(self_, cls), "rule_block": RefV(block, "RuleBlock")}, pre, H0))
+    rp = {"module": W_N, "func": "replay_activation", "kwargs": {"method": cls}, "vars": {}}
+    emit(run, ex, fq, [], rp)
+    scalar = [BATCH == 1]
+    r = rule(kstar)
+    for i, (kind, val, q) in enumerate(outs):
+        tag = f"[path{i}]"
+        if kind == "raise":
+            run.add(Obl(f"{fq}/raises.only_for_batches{tag}", q.pc, z3.And(z3.BoolVal(val == "ValueError"), BATCH > 1), fn=fq, meta={"replay": rp})); continue
+        H = q.heap
+        M = nsel(L)
+        hy = q.pc + scalar + [distinct(kstar, idx(mstar)), canon(deg(kstar)), canon(SUM(L)), elem(L, mstar), memb(L, kstar)]
+        # every rule: unloaded -> deactivated; loaded, degree not positive -> degree = weight x antecedent on the outputs at block entry, not triggered;
+        # loaded, positive -> degree divided by the sum of the positive degrees, triggered like any enabled rule with that degree
+        final = z3.If(ld(kstar), z3.If(pos_deg(kstar), z3.And(H["Rule.activation_degree"][r] == quot(kstar), deg(kstar) == W.fire(H0, r, conj, disj, T0),
+                                                             H["Rule.triggered"][r] == z3.And(H0["Rule.enabled"][r], xr.gt(xr2x(quot(kstar)), xr.const(0.0)))),
+                                       z3.And(H["Rule.activation_degree"][r] == deg(kstar), deg(kstar) == W.fire(H0, r, conj, disj, T0), z3.Not(H["Rule.triggered"][r]))),
+                      z3.And(H["Rule.activation_degree"][r] == ZERO, z3.Not(H["Rule.triggered"][r])))
+        run.add(Obl(f"{fq}/ensures.degrees_divided_by_the_sum_of_the_positive_ones{tag}", hy, final, fn=fq, meta={"replay": rp}))
+        # the outputs: exactly the selected rules contribute, in rule order, each once, with its normalised degree
+        run.add(Obl(f"{fq}/ensures.selected_rules_contribute_in_order{tag}", hy, z3.And(H["Aggregated.terms"] == Tg2(M), z3.Implies(z3.And(0 <= mstar, mstar < M), step2(H, mstar)),
+                                                                                           z3.Implies(selP(kstar), z3.And(nsel(kstar) < M, idx(nsel(kstar)) == kstar))), fn=fq, meta={"replay": rp}))
+        run.add(Obl(f"{fq}/frame{tag}", q.pc, frame_goal(q, H0, {"Rule.activation_degree", "Rule.triggered", "Aggregated.terms"}), fn=fq, meta={"replay": rp}))
+        run.add(Obl(f"{fq}/ensures.rejects_batches{tag}", q.pc + [BATCH > 1, ld(kstar)], z3.BoolVal(False), fn=fq, meta={"replay": rp}))
+    run.add(static(f"{fq}/modifies", ex.writes <= {"Rule.activation_degree", "Rule.triggered", "Aggregated.terms"}, f"heap fields written: {sorted(ex.writes)}", fn=fq))
+
+
 def build(run):
     run.assume("A-REAL", "A-NP", "A-PY", "A-MSG", "A-LOG", "A-LISTVAL", "A-ACTVAL", "A-WF")
     try:
@@ -212,6 +372,11 @@ def build(run):
             run.add(static(f"{fq}/exists", False, f"function under contract not found: {ex_}", fn=fq))
 
 
+    try:
+        verify_proportional(run)
+    except Unsupported as ex_:
+        run.add(undecided("activation.Proportional.activate/subset", f"outside the verified subset: {ex_}", fn="activation.Proportional.activate",
+                          meta={"replay": {"module": W_N, "func": "replay_activation", "kwargs": {"method": "Proportional"}, "vars": {}}}))
     # bounded stand-ins (level B, never counted as proved): Highest / Lowest / Proportional are not yet under a loop contract
     # (heapq and the two-loop normalisation); all seven methods are cross-checked against the definition on random rule blocks
     budget = 400 if run.tier == "quick" else 6000
